@@ -531,14 +531,15 @@ class Fn:
             out.append((i, dis["adt"], dis["p"], m, t["else"]))
         return out
 
-    def arm_region(self, targets, target):
+    def arm_region(self, targets, target, stop=()):
         """blocks reachable from `target` that are not reachable from any *other* arm target
-        (the arm's exclusive region)"""
-        mine = self.reachable_from([target])
+        (the arm's exclusive region). `stop`: blocks not to pass (the switch block itself, so that a
+        dispatch inside a loop does not make every arm reach every other arm through the back edge)"""
+        mine = self.reachable_from([target], stop=stop)
         others = set()
         for t in set(targets):
             if t != target:
-                others |= self.reachable_from([t])
+                others |= self.reachable_from([t], stop=stop)
         return mine - others
 
     # ---- coarse intraprocedural may-derive slice
